@@ -69,11 +69,16 @@ def run(ctx: Ctx) -> None:
             unp = [n for n in walk_no_nested(e.node) if isinstance(n, ast.Assign) and unparse(n.value) == outv and isinstance(n.targets[0], ast.Tuple)]
         ctx.need(len(unp) == 1, f'{mname}: the optimisation result is unpacked')
         xstar = unparse(unp[0].targets[0].elts[0])
-        ev = [n for n in walk_no_nested(e.node) if isinstance(n, (ast.Assign, ast.AnnAssign)) and isinstance(n.value, ast.Call) and unparse(n.value.func) in ('self.calculate_likelihood_and_derivatives', 'self.calculate_likelihood') and seq(n) > seq(unp[0])]
-        bound = prog.bind_call(e, ev[0].value) if len(ev) == 1 else None
+        # (the evaluation may be stored in a local or stand where its value is used)
+        ev = [n for n in walk_no_nested(e.node) if isinstance(n, ast.Call) and unparse(n.func) in ('self.calculate_likelihood_and_derivatives', 'self.calculate_likelihood') and seq(n) > seq(unp[0])]
+        bound = prog.bind_call(e, ev[0]) if len(ev) == 1 else None
         kws = {k: unparse(v) for k, v in (bound or {}).items()}
         ok = bound is not None and kws.get('x') == xstar and kws.get('scaled') == 'False'
-        ctx.add('C07.R2', f'BIOGEME.{mname}:final-evaluation', ok, (e.file, ev[0].lineno if ev else e.line), f'the final likelihood is evaluated at {xstar}, unscaled' if ok else f'final evaluation: {unparse(ev[0].value) if ev else "missing"}', unparse(ev[0].value) if ev else '')
+        if len(ev) != 1 or bound is None:
+            ctx.add('C07.R2', f'BIOGEME.{mname}:final-evaluation', None, e, f'{mname}: the evaluation of the likelihood at the result of the optimisation is not in the expected form ({len(ev)} evaluations after the optimisation)', 'missing')
+        else:
+            ctx.add('C07.R2', f'BIOGEME.{mname}:final-evaluation', ok, (e.file, ev[0].lineno), f'the final likelihood is evaluated at {xstar}, unscaled' if ok else
+                    f'final evaluation: {unparse(ev[0])[:120]}; the reported value must be the unscaled likelihood at {xstar}', unparse(ev[0]), positive=True)
         rr = [c for c in walk_no_nested(e.node) if isinstance(c, ast.Call) and unparse(c.func).endswith('RawResults')]
         okr = len(rr) == 1 and len(rr[0].args) >= 3 and unparse(rr[0].args[0]) == 'self' and unparse(rr[0].args[1]) == xstar
         ctx.add('C07.R2', f'BIOGEME.{mname}:results-point', okr, (e.file, rr[0].lineno if rr else e.line), f'RawResults receives {xstar}' if okr else f'RawResults receives {unparse(rr[0].args[1]) if rr and len(rr[0].args) > 1 else "?"}', unparse(rr[0]) if rr else '')
@@ -89,11 +94,15 @@ def run(ctx: Ctx) -> None:
                     f'the {xstar} handed to RawResults is the {xstar} of the final evaluation (defined once, by the main optimisation)' if oks
                     else f'{xstar} is assigned again between the main optimisation and RawResults{(" (line " + ", ".join(map(str, other)) + ")") if other else ""}: the reported point is not the point at which the likelihood and its derivatives were evaluated', 'same-point')
         if okr and ev:
-            evn = unparse(ev[0].targets[0] if isinstance(ev[0], ast.Assign) else ev[0].target)
+            asg_ev = next((n for n in walk_no_nested(e.node) if isinstance(n, ast.Assign) and n.value is ev[0]), None)
+            evn = unparse(asg_ev.targets[0]) if asg_ev is not None else unparse(ev[0])
             third = unparse(rr[0].args[2])
-            # the third argument is the evaluation, or an object built from its fields
-            defs = [n for n in walk_no_nested(e.node) if isinstance(n, ast.Assign) and unparse(n.targets[0]) == third and n is not ev[0]]
-            okv = third == evn or all(evn in unparse(d.value) for d in defs)
+            # the third argument is the evaluation (through a local or in place), or an object built from its fields
+            defs = [n for n in walk_no_nested(e.node) if isinstance(n, ast.Assign) and unparse(n.targets[0]) == third and n is not asg_ev]
+            okv = third == evn or any(x is ev[0] for x in ast.walk(rr[0].args[2])) or (bool(defs) and all(evn in unparse(d.value) for d in defs))
+            t3 = rr[0].args[2]
+            if not okv and isinstance(t3, ast.Call) and call_name(t3) == 'BiogemeFunctionOutput':
+                okv = named_args(t3).get('function') in (evn, f'{evn}.function')  # the output object built in place from the evaluation
             if mname == 'estimate':
                 for d in defs:
                     if isinstance(d.value, ast.Call) and call_name(d.value) == 'BiogemeFunctionOutput':
@@ -105,7 +114,7 @@ def run(ctx: Ctx) -> None:
     o = B.methods['optimize']
     from ..pattern import find, has
 
-    bo = find(o.node, '_ALG = opt.algorithms.get(_NAME)')
+    bo = find(o.node, '_ALG = opt.algorithms.get(__NAME)')
     ctx.need(bo is not None, 'optimize looks the algorithm up in opt.algorithms')
     calls = [c for c in walk_no_nested(o.node) if isinstance(c, ast.Call) and unparse(c.func) == bo['_ALG']]
     ctx.need(len(calls) == 1, 'optimize calls the selected algorithm once')
@@ -147,7 +156,7 @@ def run(ctx: Ctx) -> None:
     # R4
     e = B.methods['estimate']
     cfg = cfg_of(e.node)
-    rr = [n for n in walk_no_nested(e.node) if isinstance(n, ast.Assign) and isinstance(n.value, ast.Call) and unparse(n.value.func).endswith('bioResults') and n.value.args and 'raw_results' in unparse(n.value.args[0])]
+    rr = [n for n in walk_no_nested(e.node) if isinstance(n, ast.Assign) and isinstance(n.value, ast.Call) and unparse(n.value.func).endswith('bioResults') and n.value.args and ('raw_results' in unparse(n.value.args[0]) or 'RawResults(' in unparse(n.value.args[0]))]
     ctx.need(len(rr) == 1, 'estimate builds the results object once')
     rv = unparse(rr[0].targets[0])
     loops = [n for n in walk_no_nested(e.node) if isinstance(n, ast.For) and unparse(n.iter) == 'self.formulas.values()' and 'change_init_values' in unparse(n)]
